@@ -3,7 +3,10 @@ package symgo
 // Models added for property C07 (getSignaturesForAddress paging).
 
 import (
+	"fmt"
+	"go/token"
 	"math/big"
+	"strings"
 )
 
 const c07B58Alphabet = "123456789ABCDEFGHJKLMNPQRSTUVWXYZabcdefghijkmnopqrstuvwxyz"
@@ -46,4 +49,83 @@ func init() {
 			return c07Base58(b)
 		}
 	}
+}
+
+// c07Base58Decode: standard base58 decoding with mr-tron/base58.Decode's error cases (empty
+// string, character outside the alphabet).
+func c07Base58Decode(in string) ([]byte, error) {
+	if len(in) == 0 {
+		return nil, fmt.Errorf("zero length string")
+	}
+	zeros := 0
+	for zeros < len(in) && in[zeros] == '1' {
+		zeros++
+	}
+	n := new(big.Int)
+	radix := big.NewInt(58)
+	for _, r := range in {
+		if r > 127 {
+			return nil, fmt.Errorf("high-bit set on invalid digit")
+		}
+		d := strings.IndexRune(c07B58Alphabet, r)
+		if d < 0 {
+			return nil, fmt.Errorf("invalid base58 digit (%q)", r)
+		}
+		n.Mul(n, radix)
+		n.Add(n, big.NewInt(int64(d)))
+	}
+	return append(make([]byte, zeros), n.Bytes()...), nil
+}
+
+// c07UnlessBody registers model for a library function, used only when the function has no SSA
+// body in the current obligation (its package is not a source root); otherwise the real body runs.
+func c07UnlessBody(name string, model externalFn) {
+	if externals[name] != nil {
+		return
+	}
+	var self externalFn
+	self = func(fr *frame, args []value) value {
+		if fr.fn != nil && fr.fn.Blocks != nil {
+			delete(externals, name)
+			defer func() { externals[name] = self }()
+			return callSSA(fr.i, fr.caller, token.NoPos, fr.fn, args, nil)
+		}
+		return model(fr, args)
+	}
+	externals[name] = self
+}
+
+func c07FixedFromBase58(what string, n int) externalFn {
+	return func(fr *frame, args []value) value {
+		stub("solana." + what + "FromBase58 (model: exact base58 decoding + length check)")
+		out := make(array, n)
+		for i := range out {
+			out[i] = uint8(0)
+		}
+		b, err := c07Base58Decode(args[0].(string))
+		if err != nil {
+			return tuple{out, newEngineError(err.Error(), nil)}
+		}
+		if len(b) != n {
+			return tuple{out, newEngineError(fmt.Sprintf("invalid length, expected %d, got %d", n, len(b)), nil)}
+		}
+		for i := range out {
+			out[i] = b[i]
+		}
+		return tuple{out, iface{}}
+	}
+}
+
+func init() {
+	c07UnlessBody("github.com/gagliardetto/solana-go.SignatureFromBase58", c07FixedFromBase58("Signature", 64))
+	c07UnlessBody("github.com/gagliardetto/solana-go.PublicKeyFromBase58", c07FixedFromBase58("PublicKey", 32))
+	c07UnlessBody("(github.com/gagliardetto/solana-go.PublicKey).String", func(fr *frame, args []value) value {
+		stub("solana.PublicKey.String (model: exact base58)")
+		in := args[0].(array)
+		b := make([]byte, len(in))
+		for i := range in {
+			b[i] = concretize(in[i], "public key byte").(uint8)
+		}
+		return c07Base58(b)
+	})
 }
